@@ -78,9 +78,7 @@ void Ctx::c09() {
         for (auto& c : s.net.conns)
             if (c->seq_begin > dd.seq && c->seq_begin < quiet_end && !other_gen_active(D.svc_gen, c->seq_begin))
                 fail("C09", "connect_after_completion", opstr(D) + " completed at seq " + std::to_string(dd.seq) + " but connection attempt " + std::to_string(c->id) + " started at seq " + std::to_string(c->seq_begin));
-        for (auto& r : s.resolver.log)
-            if (r.seq > dd.seq && r.seq < quiet_end && !other_gen_active(D.svc_gen, r.seq))
-                fail("C09", "resolve_after_completion", opstr(D) + " completed at seq " + std::to_string(dd.seq) + " but a resolve started at seq " + std::to_string(r.seq));
+        // (a name resolution that starts after completion is not judged: the statement speaks of writes and connections)
     }
 }
 
